@@ -644,11 +644,6 @@ def run(ctx: Ctx):
         ctx.count("max_iter", "default" if case["max_iter"] is None else case["max_iter"])
         ctx.count("direction", "min" if case["minimize"] else "max")
         if bad:
-            from harness.props import C03_hard as _H
-
-            if _H._in_abs_eps_class(case, out, orc) and any(f.get("id") == _H.KNOWN_ABS_EPS for f in ctx.open_findings()):
-                ctx.known_hit(_H.KNOWN_ABS_EPS, f"solve_lp answers INFEASIBLE on a feasible LP of magnitude >= 1e4, e.g. c={case['c']} A={case['A']} b={case['b']}")
-                continue
             small = shrink(case, _bad)
             o2, r2, b2 = _work(small)
             ctx.violation(f"solve_lp: {b2 or bad}", {"kind": "simplex", **small, "impl": o2, "exact_verdict": [str(v) for v in r2]})
